@@ -444,11 +444,8 @@ def oracle(line, out, expect):
         a = int(parts[1][2:])
         if a > w * h * 4 + ALLOC_SLACK:
             return "largest allocation %d exceeds the output size %d (+%d)" % (a, w * h * 4, ALLOC_SLACK)
-    if expect is not None:
-        # where the reference says "an error" ANY error kind is accepted (kinds are still diffed model-vs-implementation)
-        if expect.startswith("err:"):
-            if not res[0].startswith("err:"):
-                return "expected an error (reference), implementation returned `%s`" % parts[0]
-        elif parts[0] != expect:
-            return "expected `%s` (reference), implementation returned `%s`" % (expect, parts[0])
+    # `expect` (the python reference decoder's exact output, where one exists) is NOT part of this oracle: pixel
+    # exactness is property C09's statement, not C08's (C08: error or exactly w*h*4 bytes, no crash, bounded
+    # allocation).  A decoder that returns the right number of wrong pixels breaks the model/implementation tie
+    # (reported as `no-failing-input-found` here) and is a concrete violation for ./check C09.
     return None
